@@ -32,6 +32,7 @@ type VirtualMachine struct {
 	ip           int // instruction pointer
 	sp           int // stack pointer
 	fp           int // frame pointer
+	callDepth    int // number of callFunction calls that have not returned yet
 	halt         int32
 	startCount   int64
 	activeFrame  *frame
@@ -843,6 +844,18 @@ func (vm *VirtualMachine) callFunction(
 		return nil, err
 	}
 
+	// Every call of this function that has not returned yet is a level of the
+	// native Go stack. A call made by running code claims the next frame, so
+	// the frame array bounds it. A deferred call does not: it runs after its
+	// frame was released, at the same frame index, while this function is
+	// still on the Go stack. Bound the nesting itself, so that recursion that
+	// proceeds through defer ends with an error as well, not with the Go
+	// runtime's fatal stack overflow.
+	if vm.callDepth >= MaxFrameDepth {
+		return nil, errz.EvalErrorf("eval error: max call depth of %d exceeded", MaxFrameDepth)
+	}
+	vm.callDepth++
+
 	baseFP := vm.fp
 	baseIP := vm.ip
 	baseSP := vm.sp
@@ -858,6 +871,7 @@ func (vm *VirtualMachine) callFunction(
 				vm.pop()
 			}
 		}
+		vm.callDepth--
 	}()
 
 	// Assemble frame local variables in vm.tmp. The local variable order is:
